@@ -104,24 +104,35 @@ def envQuery (url : Str) : Query :=
     ⟨if netloc.contains '[' && netloc.contains ']' then some (bracketedHost netloc) else none,
      if !netloc.isEmpty && !netloc.all isAscii then some netloc else none⟩
 
+/-- the two bracket checks of `urlsplit`: `false` = `ValueError` -/
+def bracketsOk (env : Env) (netloc : Str) : Bool :=
+  let o := netloc.contains '['
+  let c := netloc.contains ']'
+  if (o && !c) || (c && !o) then false
+  else if o && c then env.bracketOk (bracketedHost netloc)
+  else true
+
+/-- `_checknetloc(netloc)`: `false` = `ValueError` -/
+def nfkcCheck (env : Env) (netloc : Str) : Bool := netloc.isEmpty || netloc.all isAscii || env.nfkcOk netloc
+
+/-- `url.split('#', 1)` then `url.split('?', 1)`: `(path, query, fragment)` -/
+def splitPQF (url : Str) : Str × Str × Str :=
+  let uf := if url.contains '#' then ((partition '#' url).1, (partition '#' url).2.2) else (url, [])
+  let uq := if uf.1.contains '?' then ((partition '?' uf.1).1, (partition '?' uf.1).2.2) else (uf.1, [])
+  (uq.1, uq.2, uf.2)
+
 /-- `urlsplit(url)`; `none` = `ValueError` -/
 def urlsplit (env : Env) (url0 : Str) : Option Split :=
-  let (scheme, rest) := splitScheme (preprocess url0)
-  let (netloc, url, okB) :=
-    match netlocOf rest with
-    | none => (([] : Str), rest, true)
-    | some (netloc, r) =>
-      let o := netloc.contains '['
-      let c := netloc.contains ']'
-      if (o && !c) || (c && !o) then (netloc, r, false)
-      else if o && c then (netloc, r, env.bracketOk (bracketedHost netloc))
-      else (netloc, r, true)
-  if !okB then none
-  else
-    let (url, fragment) := if url.contains '#' then ((partition '#' url).1, (partition '#' url).2.2) else (url, [])
-    let (url, query) := if url.contains '?' then ((partition '?' url).1, (partition '?' url).2.2) else (url, [])
-    if !netloc.isEmpty && !netloc.all isAscii && !env.nfkcOk netloc then none
-    else some ⟨scheme, netloc, url, query, fragment⟩
+  let ss := splitScheme (preprocess url0)
+  match netlocOf ss.2 with
+  | none =>
+    let pqf := splitPQF ss.2
+    some ⟨ss.1, [], pqf.1, pqf.2.1, pqf.2.2⟩
+  | some (netloc, r) =>
+    if bracketsOk env netloc && nfkcCheck env netloc then
+      let pqf := splitPQF r
+      some ⟨ss.1, netloc, pqf.1, pqf.2.1, pqf.2.2⟩
+    else none
 
 /-- `_hostinfo`: `(hostname, port)` with `port = none` when empty -/
 def hostinfo (netloc : Str) : Str × Option Str :=
